@@ -28,8 +28,8 @@ RULE = (
 )
 STATE_MEASURE = "(attach-frame class, sequence of target frame classes {inertial, rotating, local}, fault sites)"
 PROBES = [
-    "cov_visited_rotating_frame", "local_after_rotating", "drag_cov_with_state", "drag_then_local", "back_to_attach_frame", "fault_fired_natural",
-    "fault_fired_injected", "atomic_failure_checked", "pickled_then_converted", "cache_dropped", "copy_joined_heap", "attached_in_local_frame",
+    "cov_visited_rotating_frame", "local_after_rotating", "drag_cov_with_state", "back_to_attach_frame", "fault_fired_natural",
+    "fault_fired_injected", "atomic_failure_checked", "pickled_then_converted", "cache_dropped", "copy_joined_heap", "attached_in_local_frame", "drag_then_local", "twin_object", "reattached_to_other_state", "cov_built_from_cov",
 ]
 REAL_VS_STUB = "real: Cov, StateVector/Orbit, frames/orientations (iau1980/iau2010 with zero or real IERS EOP from the simulated disk), to_local, pickle; stub: none (injected faults are raising wrappers in the node's private package copy); model: own QSW/TNW axes from (r0, v0) in F0, R C R^T with R from a pristine node's single-hop orientation matrix"
 ASSUMPTIONS = [
@@ -69,10 +69,27 @@ def gen_plan(rng, tier, i):
         "cov_kind": rng.choice(["full", "full", "diag", "rank2", "tiny_vel"]),
         "attach": rng.choice(["same", "same", "same", "QSW", "TNW"]),
         "attach_as_str": rng.random() < 0.5,
+        "scale": rng.choice(["UTC", "UTC", "TT", "TAI", "GPS", "TDB", "UT1"]),
     }
+    twin = None
+    if rng.random() < 0.4:
+        # a second, unrelated satellite: same clock reading under another time-scale label (or a neighbouring instant), so that
+        # anything remembered from a conversion of one object is wrong for the other
+        a2 = rng.uniform(6.8e6, 4.5e7)
+        twin = dict(
+            obj,
+            kep=[a2, rng.uniform(0.0005, min(0.75, 1 - 6.6e6 / a2)), rng.uniform(0.02, 3.1), rng.uniform(0.0, 6.28), rng.uniform(0.0, 6.28), rng.uniform(0.0, 6.28)],
+            scale=rng.choice([sc for sc in ["UTC", "TT", "TAI", "GPS"] if sc != obj["scale"]]),
+            cov_seed=rng.randrange(1 << 30),
+            frame=obj["frame"] if rng.random() < 0.7 else rng.choice(INERTIAL),
+        )
+        if rng.random() < 0.3:
+            twin["scale"] = obj["scale"]
+            twin["epoch"] = [obj["epoch"][0], obj["epoch"][1] + rng.choice([1e-6, 1e-3, 1.0, 37.0])]
+    kep_b = [rng.uniform(6.8e6, 9e6), rng.uniform(0.001, 0.02), rng.uniform(0.02, 3.1), rng.uniform(0.0, 6.28), rng.uniform(0.0, 6.28), rng.uniform(0.0, 6.28)]
     ops = []
     for _ in range(rng.randint(1, 5)):
-        k = rng.choice(["cov_frame"] * 5 + ["set_frame"] * 3 + ["cov_copy", "sv_copy", "sv_copy", "pickle", "drop_cache"])
+        k = rng.choice(["cov_frame"] * 5 + ["set_frame"] * 3 + ["cov_copy", "sv_copy", "sv_copy", "pickle", "drop_cache", "reattach", "cov_from_cov"])
         op = {"op": k, "obj": rng.randrange(4)}
         if k in ("cov_frame", "cov_copy"):
             op["frame"] = rng.choice(TARGETS + ROTATING + LOCAL)
@@ -89,7 +106,16 @@ def gen_plan(rng, tier, i):
                 site = rng.choice(["expand", "expand", "to_local", "get_frame", "form_edge", "transform_end"])
                 op["fail"] = {"kind": "inject", "site": site, "k": rng.randint(1, 5) if site in ("expand", "form_edge") else rng.randint(1, 2)}
         ops.append(op)
-    return {"knobs": {"object": obj, "real_eop": rng.random() < 0.35}, "ops": ops}
+    if rng.random() < 0.12:
+        # biased history: visit a local frame, come back, hand the covariance to another state (or copy it), go local again
+        loc = rng.choice(LOCAL)
+        ops = [
+            {"op": "cov_frame", "obj": 0, "frame": loc},
+            {"op": "cov_frame", "obj": 0, "frame": obj["frame"]},
+            {"op": rng.choice(["reattach", "reattach", "cov_from_cov", "pickle", "sv_copy"]), "obj": 0, "frame": None, "where": "other"},
+            {"op": "cov_frame", "obj": rng.randrange(4), "frame": rng.choice([loc, loc] + LOCAL)},
+        ] + ops[:1]
+    return {"knobs": {"object": obj, "twin": twin, "kep_b": kep_b, "real_eop": rng.random() < 0.35}, "ops": ops}
 
 
 # --------------------------------------------------------------------- model
@@ -153,7 +179,8 @@ class Tracked:
     """Model of one heap object: what never changes under this alphabet."""
 
     def __init__(self, C0, attach, F0, rv0, date):
-        self.C0, self.attach, self.F0, self.rv0, self.date = C0, attach, F0, rv0, date
+        # date = (mjd, seconds, scale)
+        self.C0, self.attach, self.F0, self.rv0, self.date = C0, attach, F0, rv0, tuple(date)
         if attach in LOCAL:
             L = bd(local_axes(attach, rv0[:3], rv0[3:]))
             self.CF0 = L.T @ C0 @ L
@@ -234,13 +261,19 @@ class World:
             load_real_eop(disk)
         self.disk = disk
         self.node = self.mknode("sys")
-        self.pristine = self.mknode("pristine")
         self.objs = []
         self.models = []
-        spec = kn["object"]
-        n = self.node
+        self.Rcache = {}
+        self.pnodes = {}
+        for spec in [kn["object"]] + ([kn["twin"]] if kn.get("twin") else []):
+            self.add_root(spec)
+        if kn.get("twin"):
+            ctx.probe("twin_object")
+
+    def add_root(self, spec):
+        n, ctx = self.node, self.ctx
         with n:
-            date = world.mk_date(n, spec["epoch"])
+            date = world.mk_date(n, spec["epoch"], spec.get("scale", "UTC"))
             sv = n.StateVector(spec["kep"], date, "keplerian", spec["frame"])
             sv.form = spec["form"]
             if not np.all(np.isfinite(np.asarray(sv, dtype=float))):
@@ -255,10 +288,9 @@ class World:
             if attach in LOCAL:
                 ctx.probe("attached_in_local_frame")
         self.objs.append(sv)
-        m = Tracked(C0, attach, spec["frame"], rv0, spec["epoch"])
+        m = Tracked(C0, attach, spec["frame"], rv0, list(spec["epoch"]) + [spec.get("scale", "UTC")])
         m.visited.append(attach)
         self.models.append(m)
-        self.Rcache = {}
 
     def mknode(self, name):
         n = Node(name, disk=self.disk)
@@ -270,13 +302,15 @@ class World:
         return n
 
     # ------------------------------------------------------------- model side
-    def hop(self, F0, T, epoch):
-        """6x6 single-hop matrix F0 -> T of the pristine node."""
-        key = (F0, T, tuple(epoch))
+    def hop(self, F0, T, date):
+        """6x6 single-hop matrix F0 -> T at `date`, from a pristine node that has only ever served this one date."""
+        key = (F0, T, tuple(date))
         if key not in self.Rcache:
-            p = self.pristine
+            if tuple(date) not in self.pnodes:
+                self.pnodes[tuple(date)] = self.mknode("pristine")
+            p = self.pnodes[tuple(date)]
             with p:
-                d = world.mk_date(p, epoch)
+                d = world.mk_date(p, date[:2], date[2])
                 a = p.frames.get_frame(F0)
                 b = p.frames.get_frame(T)
                 self.Rcache[key] = np.array(a.orientation.convert_to(d, b.orientation), dtype=float)
@@ -400,7 +434,8 @@ class World:
         ctx = self.ctx
         n = self.node
         with n:
-            self.check_obj(0, "initial state")
+            for i in range(len(self.objs)):
+                self.check_obj(i, "initial state")
         for step, op in enumerate(self.plan["ops"]):
             j = op["obj"] % len(self.objs)
             o, m = self.objs[j], self.models[j]
@@ -569,6 +604,51 @@ class World:
         if s["cov_frame"] != before[j]["cov_frame"]:
             self.note_visit(m2, s["cov_frame"])
 
+    def op_reattach(self, j, o, m, op, T, fail, before, where):
+        """The Cov object, currently expressed in its state's frame, is handed to another state (another satellite, same date, same
+        frame): from now on it is that state's covariance, and QSW/TNW are that state's axes."""
+        ctx = self.ctx
+        b = before[j]
+        if b["cov_frame"] != m.F0 or b["frame"] != m.F0:
+            return
+        n = self.node
+        date = world.mk_date(n, m.date[:2], m.date[2])
+        sv_b = n.StateVector(self.plan["knobs"]["kep_b"], date, "keplerian", m.F0)
+        sv_b.form = "cartesian"
+        cov = o.cov
+        sv_b.cov = cov
+        del o.cov
+        C_now = np.frombuffer(b["cov"]).reshape(6, 6).copy()
+        m2 = Tracked(C_now, m.F0, m.F0, np.array(sv_b, dtype=float), m.date)
+        m2.visited = [m.F0]
+        # the source state leaves the heap (it has no covariance any more), the new owner takes its place
+        self.objs[j] = sv_b
+        self.models[j] = m2
+        before[j] = snap(sv_b)
+        ctx.probe("reattached_to_other_state")
+        ctx.nontrivial = True
+        ctx.sig.append(("reattach", "", "", ""))
+
+    def op_cov_from_cov(self, j, o, m, op, T, fail, before, where):
+        """Cov(orb2, orb1.cov, None): the constructor's copy form.  The new state and its covariance join the heap."""
+        ctx = self.ctx
+        if len(self.objs) >= 3 or before[j]["frame"] != m.F0:
+            return
+        n = self.node
+        sv2 = o.copy()
+        sv2.cov = n.Cov(sv2, o.cov, None)
+        m2 = Tracked(m.C0, m.attach, m.F0, m.rv0, m.date)
+        m2.visited = list(m.visited)
+        self.objs.append(sv2)
+        self.models.append(m2)
+        ctx.probe("cov_built_from_cov")
+        ctx.sig.append(("cov_from_cov", "", "", ""))
+        ctx.checks += 1
+        if snap(o) != before[j]:
+            ctx.violate("pure-conversion", {"kind": "receiver_changed_by_cov_constructor"}, f"{where}: Cov(other, cov, None) modified the covariance it copies")
+        if np.shares_memory(np.asarray(sv2.cov), np.asarray(o.cov)):
+            ctx.violate("pure-conversion", {"kind": "cov_copy_shares_memory", "via": "constructor"}, f"{where}: the covariance built from another one shares its buffer with it")
+
     def op_pickle(self, j, o, m, op, T, fail, before, where):
         """The object is replaced by what another process (or this one) reads back from its pickle; the history then continues on it."""
         ctx = self.ctx
@@ -618,3 +698,5 @@ def simplify(plan):
             yield dict(plan, knobs=dict(plan["knobs"], object=dict(obj, **{key: val})))
     if plan["knobs"].get("real_eop"):
         yield dict(plan, knobs=dict(plan["knobs"], real_eop=False))
+    if plan["knobs"].get("twin"):
+        yield dict(plan, knobs=dict(plan["knobs"], twin=None))
